@@ -407,6 +407,15 @@ def gen_modules(tier, safe_modules, transitive):
         deps = transitive.get(m, [])
         kinds_t = ["py", "pkg", "pyc", "so"] if tier == "quick" else ["py", "pkg", "pyc", "pkgpyc", "nsdir", "pylink", "so", "soabi"]
         pick = deps if tier != "quick" else [deps[(i + j * 3) % len(deps)] for j in range(min(3, len(deps)))]
+        # loaded modules the repaired test cannot name: not identifiers, or not in sys.stdlib_module_names - always planted
+        import sys as _sys
+        outside = [d for d in deps if not (d.isidentifier() and d in getattr(_sys, "stdlib_module_names", ()))]
+        for dep in outside:
+            for kind in ("py", "soabi"):
+                ops = [("d", "w"), ("d", "home"), ("f", "w/x.py", safe_src((m,)))] + nb_ops("w", dep, kind, f"tr.real.{kind}.{dep}")
+                cases.append(Case("modules", {"module": m, "dep": dep, "nb": kind, "rel": "transitive", "outside_table": True}, ops, "python3 x.py", "w",
+                                  ["python3", "x.py"]))
+        pick = [d for d in pick if d not in outside]
         for j, dep in enumerate(dict.fromkeys(pick)):
             for kind in (kinds_t if tier != "quick" else [kinds_t[(i + j) % len(kinds_t)], "py"]):
                 role = f"tr.real.{kind}.{dep}"
